@@ -107,8 +107,8 @@ func (x *raceExec) build() {
 
 var raceFrameRe = regexp.MustCompile(`^\s+(massnet\.org/mass-wallet/[^\s(]+(?:\(\*?[A-Za-z]+\))?[^\s(]*)\(`)
 
-// canonRaces turns the race detector's report into sorted "f|g" pairs of innermost mass-wallet frames.
-func canonRaces(out string) []string {
+// raceCanon turns the race detector's report into sorted "f|g" pairs of innermost mass-wallet frames.
+func raceCanon(out string) []string {
 	set := map[string]bool{}
 	for _, rep := range strings.Split(out, "WARNING: DATA RACE")[1:] {
 		if i := strings.Index(rep, "=================="); i >= 0 {
@@ -182,7 +182,7 @@ func (x *raceExec) Exec(a []string) string {
 		return "err-childtimeout"
 	}
 	out := buf.String()
-	races := canonRaces(out)
+	races := raceCanon(out)
 	if verifDebug || os.Getenv("VERIF_RACE_LOG") != "" {
 		os.WriteFile(filepath.Join(cwd, "race-"+a[1]+"-"+a[2]+".log"), []byte(out), 0644)
 	}
@@ -223,50 +223,50 @@ func genRaceOps(g *Gen, verb string) {
 
 // ---------------------------------------------------------------- the child (race-instrumented)
 
-// failDB fails the k-th Commit made from the worker goroutine (storage fault), once armed.
-type failDB struct {
+// raceFailDB fails the k-th Commit made from the worker goroutine (storage fault), once armed.
+type raceFailDB struct {
 	inner mwdb.DB
 	armed *int32
 }
 
-func (d *failDB) Close() error                               { return d.inner.Close() }
-func (d *failDB) BeginReadTx() (mwdb.ReadTransaction, error) { return d.inner.BeginReadTx() }
-func (d *failDB) BeginTx() (mwdb.DBTransaction, error) {
+func (d *raceFailDB) Close() error                               { return d.inner.Close() }
+func (d *raceFailDB) BeginReadTx() (mwdb.ReadTransaction, error) { return d.inner.BeginReadTx() }
+func (d *raceFailDB) BeginTx() (mwdb.DBTransaction, error) {
 	tx, err := d.inner.BeginTx()
 	if err != nil {
 		return nil, err
 	}
-	return &failTx{DBTransaction: tx, d: d}, nil
+	return &raceFailTx{DBTransaction: tx, d: d}, nil
 }
 
-type failTx struct {
+type raceFailTx struct {
 	mwdb.DBTransaction
-	d         *failDB
+	d         *raceFailDB
 	sawDelete bool
 }
 
 // the transaction that deletes a keystore bucket is the FINAL round of a removal
-type failBucket struct {
-	bktI
-	t *failTx
+type raceFailBucket struct {
+	isoBktI
+	t *raceFailTx
 }
 
-func (b *failBucket) DeleteBucket(name string) error {
+func (b *raceFailBucket) DeleteBucket(name string) error {
 	b.t.sawDelete = true
-	return b.bktI.DeleteBucket(name)
+	return b.isoBktI.DeleteBucket(name)
 }
 
-func (t *failTx) FetchBucket(meta mwdb.BucketMeta) mwdb.Bucket {
+func (t *raceFailTx) FetchBucket(meta mwdb.BucketMeta) mwdb.Bucket {
 	b := t.DBTransaction.FetchBucket(meta)
 	if b == nil {
 		return nil
 	}
-	return &failBucket{bktI: b, t: t}
+	return &raceFailBucket{isoBktI: b, t: t}
 }
 
-func (t *failTx) Commit() error {
+func (t *raceFailTx) Commit() error {
 	// armed = n > 0: fail the next n final-round commits of a removal
-	if t.sawDelete && atomic.LoadInt32(t.d.armed) > 0 && callerRole2() == "worker" {
+	if t.sawDelete && atomic.LoadInt32(t.d.armed) > 0 && raceCallerRole() == "worker" {
 		atomic.AddInt32(t.d.armed, -1)
 		t.DBTransaction.Rollback()
 		return fmt.Errorf("injected storage fault")
@@ -274,7 +274,7 @@ func (t *failTx) Commit() error {
 	return t.DBTransaction.Commit()
 }
 
-func callerRole2() string {
+func raceCallerRole() string {
 	pcs := make([]uintptr, 64)
 	n := runtime.Callers(2, pcs)
 	frames := runtime.CallersFrames(pcs[:n])
@@ -301,10 +301,10 @@ func raceChild(scn string, seed int64) {
 	}
 	var armed int32
 	px := &protoExec{}
-	g := &gate{}
+	g := &protoGate{}
 	px.g = g
-	px.e = NewWEnvWith(func(e *WEnv) {
-		e.wrapDB = func(d mwdb.DB) mwdb.DB { return &failDB{inner: d, armed: &armed} }
+	px.e = newWEnvWrapped(func(e *WEnv) {
+		e.wrapDB = func(d mwdb.DB) mwdb.DB { return &raceFailDB{inner: d, armed: &armed} }
 	})
 	px.ext = map[string]string{}
 	e := px.e
